@@ -895,22 +895,15 @@ ParBSRMatrix* ParCSRMatrix::to_ParBSR(const int block_row_size, const int block_
             prev_row = block_row;
         }
     }
-    if (global_num_rows == global_num_cols)
+    prev_col = -1;
+    for (std::vector<int>::iterator it = on_proc_column_map.begin();
+            it != on_proc_column_map.end(); ++it)
     {
-        A->on_proc_column_map = A->get_local_row_map();
-    }
-    else
-    {
-        prev_col = -1;
-        for (std::vector<int>::iterator it = on_proc_column_map.begin();
-                it != on_proc_column_map.end(); ++it)
+        block_col = *it / block_col_size;
+        if (block_col != prev_col)
         {
-            block_col = *it / block_col_size;
-            if (block_col != prev_col)
-            {
-                A->on_proc_column_map.emplace_back(block_row);
-                prev_col = block_row;
-            }
+            A->on_proc_column_map.emplace_back(block_col);
+            prev_col = block_col;
         }
     }
 
@@ -928,7 +921,7 @@ ParBSRMatrix* ParCSRMatrix::to_ParBSR(const int block_row_size, const int block_
         }
     }
     A->local_num_rows = A->local_row_map.size();
-    A->on_proc_num_cols = A->local_num_rows;
+    A->on_proc_num_cols = A->on_proc_column_map.size();
     A->off_proc_num_cols = A->off_proc_column_map.size();
     A->off_proc->n_cols = A->off_proc_num_cols;
 
